@@ -24,6 +24,7 @@ func init() {
 	ops["WifMutate"] = opWifMutate
 	ops["PartsPurity"] = opPartsPurity
 	ops["HDPathStr"] = opHDPathStr
+	ops["GenerateSeed"] = opGenerateSeed
 	ops["ShortKeyString"] = opShortKeyString
 }
 
@@ -581,5 +582,31 @@ func opWifDecode(_ *HState, a Event) Event {
 		env = append(env, envSha256d(d[:len(d)-4]))
 	}
 	e["env"] = env
+	return panicField(e, p, msg)
+}
+
+// opGenerateSeed: the seed generator in front of NewMaster: length contract, and the draws are not constant.
+func opGenerateSeed(_ *HState, a Event) Event {
+	n := gInt(a, "n")
+	e := with(a, "ok", false, "len", 0, "distinct", true, "allzero", false, "master", false, "err", "")
+	p, msg := guard(func() {
+		s1, err := hdkeychain.GenerateSeed(uint8(n))
+		e["err"] = hdErr(err)
+		if err != nil {
+			return
+		}
+		s2, _ := hdkeychain.GenerateSeed(uint8(n))
+		e["ok"], e["len"] = true, len(s1)
+		e["distinct"] = !bytes.Equal(s1, s2)
+		z := true
+		for _, x := range s1 {
+			if x != 0 {
+				z = false
+			}
+		}
+		e["allzero"] = z
+		_, merr := hdkeychain.NewMaster(s1, nets[0])
+		e["master"] = merr == nil || merr == hdkeychain.ErrUnusableSeed
+	})
 	return panicField(e, p, msg)
 }
